@@ -137,6 +137,12 @@ Proof. exact validated_panics_only_search. Qed.
 Theorem C17_flags_now : cfg_validates_wavelengths = true /\ cfg_rejects_bad_period = true.
 Proof. exact flags_now. Qed.
 
+(* the repairs of F7b / F7f / F7g / F7h are in the code: external-range check, total-reflection check, NaN-safe searches, crystal
+   validation (read off the source; a source that loses one breaks this obligation, and the stream finds the concrete input) *)
+Theorem C17_repairs_now : cfg_checks_external_range = true /\ cfg_checks_total_reflection = true /\ searches_cannot_fail = true /\
+                          cfg_validates_crystal = true.
+Proof. exact repairs_now. Qed.
+
 (* rule 3: a signal wavelength not longer than the pump's is an error, whatever else is auto or explicit *)
 Theorem C17_rule_signal_le_pump : forall num (o : NumOps num) U K minpos (c : spdc_cfg num),
   cfg_le o c = true -> try_as_spdc_now o U K minpos c = Err ESignalLePump.
@@ -175,6 +181,33 @@ Proof. exact now_rule_bad_period. Qed.
 Theorem C17_no_panic : forall num (o : NumOps num) U K minpos (c : spdc_cfg num),
   scale_order o -> searches_defined_at o K c -> is_panic (try_as_spdc_now o U K minpos c) = false.
 Proof. exact now_no_panic_at. Qed.
+
+(* FULL STRENGTH on the repaired code: never panics provided the Snell inverse answers and the crystal-angle search answers for a
+   signal whose external angle exists -- nothing about total internal reflection or the period search is assumed any more: those
+   cases are ERRORS (rules 6, 7, 4' below) *)
+Theorem C17_no_panic_full : forall num (o : NumOps num) U K minpos (c : spdc_cfg num),
+  scale_order o -> searches_defined_now num o K c -> is_panic (try_as_spdc_now o U K minpos c) = false.
+Proof. exact now_no_panic_full. Qed.
+
+(* rule 6: an external signal angle of 90 degrees or more is an error *)
+Theorem C17_rule_external_range : forall num (o : NumOps num) U K minpos (c : spdc_cfg num) e,
+  cfg_le o c = false -> bc_theta_deg (c_signal c) = None -> bc_theta_ext_deg (c_signal c) = Some e ->
+  nltb o (nabs o e) (nQ o 90) = false -> try_as_spdc_now o U K minpos c = Err EExternalRange.
+Proof. exact now_rule_external_range. Qed.
+
+(* rule 7: an automatic crystal angle for a signal beyond total internal reflection is an error *)
+Theorem C17_rule_total_reflection : forall num (o : NumOps num) U K minpos (c : spdc_cfg num) signal,
+  cfg_le o c = false -> signal_step o K c = Ok signal -> is_auto (cc_theta_deg (c_crystal c)) = true -> c_pp c = PCOff ->
+  o_snell_ext K signal (cfg_cs0 o c) = None -> try_as_spdc_now o U K minpos c = Err ETotalReflection.
+Proof. exact now_rule_total_reflection. Qed.
+
+(* rule 4': an automatic-period search that finds nothing is the "could not determine poling period" error *)
+Theorem C17_rule_search_finds_nothing : forall num (o : NumOps num) U K minpos (c : spdc_cfg num) signal a,
+  cfg_le o c = false -> signal_step o K c = Ok signal -> c_pp c = PCConfig Auto a ->
+  signal_le_pump o signal (cfg_pump o c) = false ->
+  neqb o (o_dkz0 K signal (cfg_pump o c) (cfg_cs0 o c)) (n0 o) = false ->
+  o_nm_period K signal (cfg_pump o c) (cfg_cs0 o c) = None -> try_as_spdc_now o U K minpos c = Err EImpossiblePeriod.
+Proof. exact now_rule_search_finds_nothing. Qed.
 
 Theorem C17_panics_only_search : forall num (o : NumOps num) U K minpos (c : spdc_cfg num) s,
   scale_order o -> try_as_spdc_now o U K minpos c = Panic s -> s = SiteNelderMeadUnwrap.
@@ -218,6 +251,20 @@ Theorem C17_tir_outcome_composed : forall index_of snell_inv sd_theta sd_period 
   try_as_spdc_now R_ops U (oracles_of_model index_of snell_inv sd_theta sd_period) minpos c =
     if cfg_checks_total_reflection then Err ETotalReflection else Panic SiteNelderMeadUnwrap.
 Proof. exact tir_outcome_composed. Qed.
+
+(* FULL STRENGTH on the repaired code *)
+Theorem C17_no_panic_composed_full : forall index_of snell_inv sd_theta sd_period U minpos (c : spdc_cfg R),
+  (forall b e cs, snell_inv b e cs <> None) ->
+  angle_search_defined index_of snell_inv sd_theta sd_period c ->
+  is_panic (try_as_spdc_now R_ops U (oracles_of_model index_of snell_inv sd_theta sd_period) minpos c) = false.
+Proof. exact no_panic_composed_now. Qed.
+
+Theorem C17_tir_is_error_composed : forall index_of snell_inv sd_theta sd_period U minpos (c : spdc_cfg R) signal,
+  cfg_le R_ops c = false -> signal_step R_ops (oracles_of_model index_of snell_inv sd_theta sd_period) c = Ok signal ->
+  is_auto (cc_theta_deg (c_crystal c)) = true -> c_pp c = PCOff ->
+  snell_ext_defined index_of signal (cfg_cs0 R_ops c) = false ->
+  try_as_spdc_now R_ops U (oracles_of_model index_of snell_inv sd_theta sd_period) minpos c = Err ETotalReflection.
+Proof. exact tir_is_error_composed_now. Qed.
 
 Theorem C17_no_panic_composed_builtin : forall snell_inv sd_theta sd_period U minpos (c : spdc_cfg R),
   (forall b e cs, snell_inv b e cs <> None) ->
@@ -321,6 +368,13 @@ Print Assumptions C17_ok_finite_or_err_composed_partial.
 Print Assumptions C17_idler_is_C03.
 Print Assumptions C17_period_is_C04.
 Print Assumptions C17_flags_now.
+Print Assumptions C17_repairs_now.
+Print Assumptions C17_no_panic_full.
+Print Assumptions C17_rule_external_range.
+Print Assumptions C17_rule_total_reflection.
+Print Assumptions C17_rule_search_finds_nothing.
+Print Assumptions C17_no_panic_composed_full.
+Print Assumptions C17_tir_is_error_composed.
 Print Assumptions C17_rule_signal_le_pump.
 Print Assumptions C17_rule_signal_angles_now.
 Print Assumptions C17_rule_auto_theta_with_poling_now.
